@@ -473,8 +473,15 @@ def w_geometry(ctx, rng, i):
         m.tri_areas(); m.edge_lengths(); m.boundary_tri_index()
         if d == 3:
             m.tri_normals(); m.vertex_normals()
-    mr = rigid.apply(m)
-    msc = UniformScale(s, d).apply(m)
+    if rng.random() < 0.3:
+        m.landmarks["marks"] = gen.shape(rng, "PointCloud", d=d, n=4)          # an annotated mesh moves like any other
+    if rng.random() < 0.25:
+        # the same rigid motion written as a plain homogeneous matrix in another scaling (k * H stands for the same map)
+        from menpo.transform import Homogeneous
+        rigid = Homogeneous(np.asarray(rigid.h_matrix, dtype=float) * [2.0, -1.0, 0.25, 5.0][rng.integers(0, 4)])
+    bkw = {"batch_size": int(rng.integers(1, m.n_points + 3))} if rng.random() < 0.25 else {}      # the documented optional batching
+    mr = rigid.apply(m, **bkw)
+    msc = UniformScale(s, d).apply(m, **bkw)
     a0, a1, a2 = m.tri_areas(), mr.tri_areas(), msc.tri_areas()
     l0, l1, l2 = m.edge_lengths(), mr.edge_lengths(), msc.edge_lengths()
     # the moved mesh rebuilt from its coordinate vector on the original mesh (same triangles, attributes): the same mesh as the
